@@ -119,6 +119,32 @@ CHECKS: dict[str, tuple[str, str, str, str]] = {
         "relative property; grammars / rules that can reach SOI are excluded by a static check",
         "DESIGN.md 4/C16",
     ),
+    "C10": (
+        "differential monitor against an executable oracle: pest's own meta-grammar run by the reference PEG evaluator, converted like pest_meta's consume_rules",
+        "Derivations of the meta-grammar with trivia at every legal place, printed random ASTs under random formatting, the bundled "
+        ".pest files, character/token mutants of all of these and a fact table are each classified by the oracle and loaded by "
+        "Parser.from_grammar; acceptance must agree and, when both accept, names, modifiers, docs and the whole expression structure "
+        "must be equal. Two recorded findings (tag placement) are accepted only through an exact controlled normalisation.",
+        "trusted: pv/ref/meta_literal.py == tests/grammars/meta.pest (fix-point self-test at every run), pv/ref/metafront.py, pv/adapter.py; "
+        "abstains on non-scalar \\u{} values, counts > 64, nesting > 40, redefinition of core built-ins",
+        "DESIGN.md 4/C10",
+    ),
+    "C11": (
+        "exception-type and message monitor over exhaustive truncations, pointwise mutations and generated texts",
+        "Every prefix of every bundled grammar (stride in quick), prefixes of generated grammars, every single-character edit at "
+        "every offset of small grammars, derivations, printed ASTs, mutants, soups and edge texts are loaded with and without the "
+        "optimizer: only Parser or PestGrammarError may come out, str() must render and the printed line:col must exist in the text.",
+        "RecursionError / MemoryError / a 20 s watchdog beyond 2 kB, nesting 40 or counts 64 are abstentions (stated bounds)",
+        "DESIGN.md 4/C11",
+    ),
+    "C12": (
+        "exhaustive membership sweeps: one parse('r', chr(c)) per code point per mode against set predicates",
+        "All 1,114,112 code points x 4 modes for every ASCII built-in, NEWLINE and ANY, and for a family of ranges, literals and "
+        "optimizer-merged choices (all fully swept in the thorough tier); Unicode property rules by cross-mode agreement; escapes by "
+        "probing around the decoded value in strings and range bounds; CI literals on ASCII input.",
+        "trusted: the set predicates in pv/checks/c12.py; Unicode property rules are compared across modes only",
+        "DESIGN.md 4/C12",
+    ),
 }
 
 PENDING_REASON = "check not built yet in this revision of /verif (runtime monitor planned, see DESIGN.md section 4)"
